@@ -9,6 +9,15 @@ import itertools, random
 _ctx_cache = {}
 
 
+def _dm_after(parsed_node, *args, **kwargs):
+    from pylatexenc.macrospec import MacroSpec, ParsingStateDeltaExtendLatexContextDb
+    try:
+        name = parsed_node.nodeargd.argnlist[0].nodelist[0].chars
+    except Exception:
+        return None
+    return ParsingStateDeltaExtendLatexContextDb(extend_latex_context=dict(macros=[MacroSpec(name, '{')]))
+
+
 def make_db(name):
     """name -> LatexContextDb (None for the default walker context)"""
     if name == 'default':
@@ -101,6 +110,54 @@ def make_db(name):
         ], specials=[SpecialsSpec('~')])
         db.set_unknown_macro_spec(MacroSpec(''))
         db.set_unknown_environment_spec(EnvironmentSpec(''))
+    elif name in ('chain2', 'chain2-ref'):
+        # real code only, a TWIN pair: the same specifications, each carrying a chain of parsing-state changes,
+        # written (chain2) with the library's ParsingStateDeltaChained and (chain2-ref) with the harness's own
+        # delta object applying the same steps one after the other.  Every document means the same under both.
+        from pylatexenc.latexnodes import ParsingStateDeltaChained, ParsingStateDelta
+        from pylatexenc.macrospec import ParsingStateDeltaExtendLatexContextDb
+        prim = {
+            'leave': lambda: ParsingStateDeltaLeaveMathMode(),
+            'enter': lambda: ParsingStateDeltaEnterMathMode(),
+            'nocomments': lambda: ParsingStateDelta(set_attributes={'enable_comments': False}),
+            'nospecials': lambda: ParsingStateDelta(set_attributes={'enable_specials': False}),
+            'nomath': lambda: ParsingStateDelta(set_attributes={'enable_math': False}),
+            'math-on': lambda: ParsingStateDelta(set_attributes={'enable_math': True}),
+            'comments-on': lambda: ParsingStateDelta(set_attributes={'enable_comments': True}),
+            'why': lambda: ParsingStateDeltaExtendLatexContextDb(extend_latex_context=dict(macros=[MacroSpec('why', '{')])),
+            'none': lambda: None,
+        }
+
+        class _Seq(ParsingStateDelta):
+            def __init__(self, steps):
+                super(_Seq, self).__init__()
+                self.steps = steps
+
+            def get_updated_parsing_state(self, parsing_state, latex_walker):
+                ps = parsing_state
+                for st in self.steps:
+                    if st is not None:
+                        ps = st.get_updated_parsing_state(ps, latex_walker)
+                return ps
+        if name == 'chain2':
+            mk = lambda names: None if names is None else ParsingStateDeltaChained([prim[n]() for n in names])
+        else:
+            mk = lambda names: None if names is None else _Seq([prim[n]() for n in names])
+        db.add_context_category('k', macros=[
+            MacroSpec(m, [LatexArgumentSpec('{', parsing_state_delta=mk(ch)) for ch in args])
+            for m, args in sorted(CHAIN2_MACROS.items())
+        ], environments=[
+            EnvironmentSpec(e, '', body_parsing_state_delta=mk(ch)) for e, ch in sorted(CHAIN2_ENVS.items())
+        ], specials=[SpecialsSpec('~')])
+        db.set_unknown_macro_spec(MacroSpec(''))
+        db.set_unknown_environment_spec(EnvironmentSpec(''))
+    elif name == 'defs':
+        # real code only: the default database plus \\dm{name}, which DEFINES \\name (one mandatory argument) for the
+        # rest of the enclosing scope (a context-extending change of the parsing state after the macro)
+        from pylatexenc.latexwalker import get_default_latex_context_db
+        db = get_default_latex_context_db()
+        db.add_context_category('verif-defs', prepend=True,
+                                macros=[MacroSpec('dm', '{', make_after_parsing_state_delta=_dm_after)])
     elif name == 'bare':
         db.set_unknown_macro_spec(MacroSpec(''))
         db.set_unknown_environment_spec(EnvironmentSpec(''))
@@ -122,13 +179,59 @@ def ctx_wire(name):
 
 
 CONTEXTS = ['default', 'custom', 'custom-nofallback', 'bare']
-UNMODELLED_CONTEXTS = ['commasep', 'legacyverb', 'chained']          # wire entry 999 does not exist: model and implementation dump both say BADIN
+UNMODELLED_CONTEXTS = ['commasep', 'legacyverb', 'chained', 'chain2', 'chain2-ref', 'defs']          # wire entry 999 does not exist: model and implementation dump both say BADIN
 SYM_LEGACYVERB = ['\\lstinline', '\\vb', '[o]', '*', '|', 'x', ' ', '{a}', '+a b+', '\n', '\\begin{lst}', '\\end{lst}', '%c\n', '[', '$']
 # what the 'chained' context's specifications MEAN for the mode of each argument / body ('T' text, 'M' math, '=' inherit),
 # written down here and not read back from the delta objects of the library
 CHAINED_EFFECTS = {'ct': ['T'], 'cm': ['M', '='], 'cn': ['T'], 'link': ['=', '='], 'linko': ['=', '='], 'plain': ['='],
                    'cmath': 'M'}
 SYM_CHAINED = ['\\ct', '\\cm', '\\cn', '{', '}', 'a', ' ', '$', '\\begin{cmath}', '\\end{cmath}', '%c\n', '\\(', '\\)', '{x}']
+# the twin contexts chain2 / chain2-ref: per macro, the chain of steps on each argument (None: no delta); per
+# environment, the chain on its body
+CHAIN2_MACROS = {'raw': [['nocomments', 'nospecials']], 'rawm': [['nocomments', 'enter']], 'tm': [['leave', 'nospecials']],
+                 'cx': [['enter', 'leave']], 'two': [['leave', 'nocomments'], None], 'normal': [['math-on', 'comments-on']],
+                 'wm': [['why', 'enter']], 'one': [['none', 'nomath', 'none']], 'three': [['nocomments', 'nomath', 'nospecials']]}
+CHAIN2_ENVS = {'deriv': ['why', 'enter'], 'rawtext': ['nocomments', 'nomath'], 'evm': ['nospecials', 'enter']}
+SYM_CHAIN2 = (['\\' + m for m in sorted(CHAIN2_MACROS)] + ['\\why', '{', '}', 'a', ' ', '$', '$$', '%c\n', '~', '\\(', '\\)', '\\[', '\\]', '{x}',
+                                                           '{5% of a~b}', '\n', '{$y$}']
+              + ['\\begin{%s}' % e for e in sorted(CHAIN2_ENVS)] + ['\\end{%s}' % e for e in sorted(CHAIN2_ENVS)])
+
+
+def chain2_strings(rnd, n):
+    """documents for the twin contexts: random symbol strings and well-formed shapes (a chained macro around a body
+    that contains the characters whose reading the chain's steps change)"""
+    bodies = ['5% of a~b', '$x$', 'a~b', 'p %c\n q', '\\why{z}', '\\why{$w$}', 'x$y$z~%d\n', '\\(u\\)', '{$}', 'a', '',
+              '\\normal{$m$ %e\n}', '\\raw{%}', '$$d$$', '\\[e\\]']
+    out = []
+    for _ in range(n):
+        k = rnd.random()
+        if k < 0.45:
+            out.append(''.join(rnd.choice(SYM_CHAIN2) for _ in range(rnd.randint(1, 9))))
+            continue
+        parts = []
+        for _ in range(rnd.randint(1, 3)):
+            b = rnd.choice(bodies)
+            j = rnd.random()
+            if j < 0.6:
+                m = rnd.choice(sorted(CHAIN2_MACROS))
+                t = '\\' + m + ''.join('{' + (b if i == 0 or rnd.random() < 0.7 else rnd.choice(bodies)) + '}'
+                                        for i in range(len(CHAIN2_MACROS[m])))
+            else:
+                e = rnd.choice(sorted(CHAIN2_ENVS))
+                t = '\\begin{%s}%s\\end{%s}' % (e, b, e)
+            w = rnd.random()
+            if w < 0.15:
+                t = '$' + t + '$'
+            elif w < 0.3:
+                e = rnd.choice(sorted(CHAIN2_ENVS))
+                t = '\\begin{%s}%s\\end{%s}' % (e, t, e)
+            elif w < 0.4:
+                t = '{' + t + '}'
+            parts.append(t + rnd.choice(['', ' ', ' t ', '~', '%k\n']))
+        out.append(''.join(parts))
+    return out
+
+
 SYM_COMMASEP = ['\\cs', '\\ck', '{', '}', ',', ',,', 'a', ' ', 'b,', '{c}', '%x\n', '$', '\\cs{', '\n\n', '[', '\\z']
 
 # ---------------------------------------------------------------------------
